@@ -306,6 +306,8 @@ def run(ctx):
                                 return False
                     elif kind == "out-param" and node is call:
                         continue
+                    elif kind == "method" and isinstance(node, dict) and node.get("k") == "call" and short(node.get("name") or "") == "imbue":
+                        continue  # a locale on the private split stream: inserting a string and getline with an explicit delimiter consult no facet
                     elif kind in ("out-param", "method", "other", "assign"):
                         # only `stream << carrier`
                         bo = ir.as_binop(node) if node.get("k") == "call" else None
@@ -320,6 +322,8 @@ def run(ctx):
             if k == "toggle":
                 # given_ = parse_env_value(<carrier>)
                 r0 = ir.unwrap(rhs)
+                while isinstance(r0, dict) and r0.get("k") == "cast" and isinstance(r0.get("e"), dict) and re.match(r"^(int|unsigned int|long|unsigned long|std::size_t|bool)$", (r0.get("type") or "int")):
+                    r0 = ir.unwrap(r0["e"])  # static_cast<int>(parse_env_value(w)): the implicit bool -> count conversion written out
                 # the bool -> count conversion spelled out: `parse_env_value(w) ? 1 : 0` stores what the implicit conversion stores
                 if isinstance(r0, dict) and r0.get("k") in ("cond", "ternary", "conditional"):
                     cc, tt, ff = (r0.get("c") if r0.get("c") is not None else r0.get("cond")), (r0.get("t") if isinstance(r0.get("t"), dict) else r0.get("then")), (r0.get("f") if r0.get("f") is not None else r0.get("else"))
